@@ -30,7 +30,7 @@ Explains(v, e) ==
        /\ (e.pick = "none") = (v = << >>)
        /\ e.pick # "none" => e.pick \in S(v)
 
-TraceInit == l = 1 /\ Init /\ vals = << >> /\ done = 0 /\ lo = [x \in {} |-> 0]
+TraceInit == l = 1 /\ InitWith("inline", "inline") /\ vals = << >> /\ done = 0 /\ lo = [x \in {} |-> 0]
 TNew == IsEvent("new") /\ vals' = << Val(Ev) >> /\ done' = 0 /\ lo' = [x \in {} |-> 0]
 TBegin == IsEvent("ubegin") /\ vals' = Append(vals, Val(Ev)) /\ UNCHANGED <<done, lo>>
 TEnd == IsEvent("uend") /\ done' = Len(vals) - 1 /\ UNCHANGED <<vals, lo>>
